@@ -14,6 +14,38 @@ import time
 import z3
 
 
+# ---------------------------------------------------------------------------
+# every z3.Solver of the harness: an 'unknown' that is a timeout gets one more attempt with four times
+# the budget (a busy machine must not turn a decided obligation into an inconclusive one)
+# ---------------------------------------------------------------------------
+_solver_set, _solver_check = z3.Solver.set, z3.Solver.check
+
+
+def _set_recording(self, *a, **k):
+    if len(a) == 2 and a[0] == 'timeout':
+        self._verif_timeout = a[1]
+    if 'timeout' in k:
+        self._verif_timeout = k['timeout']
+    return _solver_set(self, *a, **k)
+
+
+def _check_retrying(self, *a):
+    r = _solver_check(self, *a)
+    to = getattr(self, '_verif_timeout', None)
+    if r == z3.unknown and to and self.reason_unknown() in ('timeout', 'canceled'):
+        _solver_set(self, 'timeout', to * 4)
+        try:
+            r = _solver_check(self, *a)
+        finally:
+            _solver_set(self, 'timeout', to)
+    return r
+
+
+z3.Solver.set = _set_recording
+z3.Solver.check = _check_retrying
+
+SLOWQ = float(__import__('os').environ.get('VERIF_SLOWQ', '1e9'))
+
 #: search-order hint for the next decisions (None | True | False); never changes what is explored, only when
 PREFER = [None]
 
@@ -112,7 +144,11 @@ class Path:
         t0 = time.time()
         r = self.solver.check(*extra)
         self.x.stats.queries += 1
-        self.x.stats.solver_time += time.time() - t0
+        dt = time.time() - t0
+        self.x.stats.solver_time += dt
+        if dt > SLOWQ:
+            import sys
+            sys.stderr.write('SLOWQ %.1fs %s\n' % (dt, r))
         return r
 
     def _ensure_model(self):
@@ -222,6 +258,7 @@ class Explorer:
     def __init__(self, timeout_ms=60000, max_paths=20000, max_depth=4000, seed=0):
         self.solver = z3.SolverFor('QF_ABV') if False else z3.Solver()
         self.solver.set('timeout', timeout_ms)
+        self.timeout_ms = timeout_ms
         self.solver.set('random_seed', seed & 0x7fffffff)
         self.stats = Stats()
         self.inputs = {}
